@@ -194,8 +194,12 @@ func SizeAlphabet(p refper.Params, isList bool) []int64 {
 			hi = 16383
 		}
 	}
-	if LargeDefault && !isList && hi >= 200 && lb <= 200 && lb != ub {
-		def = 200
+	if LargeDefault && !isList && lb != ub {
+		if hi >= 200 && lb <= 200 {
+			def = 200
+		} else if ub >= 0 {
+			def = (lb + ub + 2) / 2 // small ranges: a size from the middle (gNB id 22..32 -> 28 bits)
+		}
 	}
 	out := uniq(def, vs, lb, hi)
 	if p.SizeExt && ub >= 0 && !isList {
